@@ -1106,12 +1106,12 @@ func c17Run(t *testing.T, env *mc.Env, cfg *c17Cfg, cumShare float64) {
 func TestVerifC17RF(t *testing.T) {
 	env := mc.LoadEnv()
 	c17Run(t, env, &c17Cfg{name: "rf-hist", kind: "rf", mode: sev1alpha1.PodMigrationJobModeReservationFirst,
-		maxFaults: env.Pick(1, 2), depth: env.Pick(8, 10), replaceA: env.Thorough(), legacy: env.Thorough()}, 1.0)
+		maxFaults: env.Pick(1, 2), depth: env.Pick(8, 10), replaceA: env.Thorough(), legacy: true}, 1.0)
 }
 
 func TestVerifC17Aux(t *testing.T) {
 	env := mc.LoadEnv()
-	share := []float64{0.6, 1.0} // cumulative budget shares of the parts
+	share := []float64{0.5, 0.6, 1.0} // cumulative budget shares of the parts
 	if env.Thorough() {
 		share = []float64{0.3, 0.4, 0.75, 1.0}
 	}
@@ -1122,6 +1122,11 @@ func TestVerifC17Aux(t *testing.T) {
 		maxFaults: env.Pick(1, 2), depth: env.Pick(6, 8), replaceA: env.Thorough()}, share[0])
 	c17Run(t, env, &c17Cfg{name: "direct-hist", kind: "direct", mode: sev1alpha1.PodMigrationJobModeEvictionDirectly,
 		maxFaults: env.Pick(1, 2), depth: env.Pick(6, 9), replaceA: env.Thorough()}, share[1])
+	if !env.Thorough() {
+		// migration of a Pending pod (see below), shallower in the quick tier
+		c17Run(t, env, &c17Cfg{name: "rf-pending-pod-hist", kind: "rf", mode: sev1alpha1.PodMigrationJobModeReservationFirst, pending: true,
+			maxFaults: 1, depth: 6}, share[2])
+	}
 	if env.Thorough() {
 		c17Run(t, env, &c17Cfg{name: "rf-preset-ref-hist", kind: "rf", maxK: 7, mode: sev1alpha1.PodMigrationJobModeReservationFirst, presetRef: true,
 			maxFaults: 1, depth: 8, legacy: true}, share[2])
